@@ -246,6 +246,51 @@ def build(P):
                                          "each_holds_exactly_the_points_inside_its_area_and_outside_every_scaled_box", f"forall(c, 0, len({AREAS}), {done('result[c]', 'c')})")),
              extra_contracts=dict(with_obj, **{idx.lookup(f"{OB}:DynamicObject.get_distance").fq: dist_named}))
 
+    # ---------------------------------------------------------------- the manager's add_frame_result: who gets which objects and clouds
+    # the pre-crop sees EVERY annotated object of the frame (a box of an object outside target_uuids still shields its points), the frame evaluation the
+    # filtered ones; detection is evaluated on the whole cloud, non-detection on the pre-cropped clouds
+    SEM = "manager.sensing_evaluation_manager:SensingEvaluationManager"
+    FGT = idx.lookup("common.dataset:FrameGroundTruth")
+
+    def mk_mgr2(it):
+        o = mk_mgr(it)
+        it.ctx.cell(o).update(frame_results=it.ctx.new_cell("list", []))
+        return o
+
+    def mk_gt_frame(it):
+        o = it.ctx.new_cell("obj", {}, FGT)
+        it.ctx.cell(o).update(objects=TSList(DO).fresh(it.ctx, "annotated"), transforms=VOpaque("transformdict", it.ctx.fresh("tf", I)), frame_name=VStr("7"), unix_time=VInt(it.ctx.fresh("t", I)))
+        return o
+
+    def sfr_cut(it, cf):
+        o = it.ctx.new_cell("obj", {}, SFR)
+        it.ctx.cell(o).update(sensing_frame_config=cf.vars["sensing_frame_config"], unix_time=cf.vars["unix_time"], frame_name=cf.vars["frame_name"],
+                              seen_gt=NONE, seen_det=NONE, seen_nondet=NONE)
+        return o
+    wiring = {
+        idx.lookup(f"{SEM}.crop_pointcloud").fq: Contract(f"{SEM}.crop_pointcloud", params={}, returns=TSList(CLOUD),
+                                                          ensures=E("named", "uf_bool('pre_cropped', result, ground_truth_objects, pointcloud, non_detection_areas, transforms) and is_new(result)")),
+        idx.lookup(f"{SEM}._filter_objects").fq: Contract(f"{SEM}._filter_objects", params={}, returns=TSList(DO),
+                                                          ensures=E("named", "uf_bool('targets_of', result, frame_ground_truth.objects, sensing_frame_config) and is_new(result)")),
+        SFR.fq: Contract(f"{SF}:SensingFrameResult", returns=sfr_cut),
+        idx.lookup(f"{SF}:SensingFrameResult.evaluate_frame").fq: Contract(f"{SF}:SensingFrameResult.evaluate_frame", params={},
+                                                                           assigns={"self.seen_gt": "ground_truth_objects", "self.seen_det": "pointcloud_for_detection",
+                                                                                    "self.seen_nondet": "pointcloud_for_non_detection"}),
+    }
+    P.verify(f"{SEM}.add_frame_result", name="SensingEvaluationManager.add_frame_result",
+             contract=Contract(f"{SEM}.add_frame_result", cut=False,
+                               params={"self": mk_mgr2, "unix_time": TInt(), "ground_truth_now_frame": mk_gt_frame, "pointcloud": CLOUD, AREAS: TSList(TOpaque("area")),
+                                       "sensing_frame_config": lambda it: mk_cfg2(it)},
+                               modifies=[("attrs", "self.frame_results")],
+                               ensures=E("boxes_of_all_annotated_objects_shield_the_non_detection_clouds",
+                                         f"uf_bool('pre_cropped', result.seen_nondet, ground_truth_now_frame.objects, pointcloud, {AREAS}, ground_truth_now_frame.transforms)",
+                                         "the_frame_is_evaluated_on_the_target_objects_and_the_whole_cloud",
+                                         "uf_bool('targets_of', result.seen_gt, ground_truth_now_frame.objects, sensing_frame_config) and result.seen_det is pointcloud",
+                                         "stamped_and_configured", "result.unix_time == unix_time and result.frame_name == ground_truth_now_frame.frame_name and result.sensing_frame_config is sensing_frame_config",
+                                         "recorded_once", "len(self.frame_results) == 1 and self.frame_results[0] is result",
+                                         "the_frame_is_only_read", "ground_truth_now_frame.objects is old(ground_truth_now_frame.objects) and len(ground_truth_now_frame.objects) == old(len(ground_truth_now_frame.objects))")),
+             extra_contracts=wiring)
+
     # ---------------------------------------------------------------- evaluate_frame: both evaluations always run, on the arguments given
     def mk_frame2(it):
         o = mk_frame(it)
